@@ -3,7 +3,7 @@
    Coq's N / positive / nat datatypes.  No Extract Constant, no other Extract Inductive. *)
 From Coq Require Import NArith List.
 From Coq Require Extraction ExtrOcamlBasic.
-From ZB Require Import Base.Bytes Crc.CrcSpec Crc.CrcModel Link.LLHeader Link.LinkSpec Link.Frame Link.Frag Link.Resync Link.Rx Link.RxSpec Link.TxSeq
+From ZB Require Import Base.Bytes Crc.CrcSpec Crc.CrcModel Link.LLHeader Link.LinkSpec Link.Frame Link.Frag Link.Resync Link.Rx Link.RxSpec Link.TxSeq Link.Reasm
   Wire.Wty Cmd.Schema Cmd.Command gen.GenSchemas.
 
 Extraction Language OCaml.
@@ -15,5 +15,5 @@ Extraction "../ocaml/gen/model.ml"
   spec_decode spec_encode claims
   extract_frame_x data_received
   spec_parse_pos spec_ack_bytes waits
-  trun
+  trun reasm_run
   valid enc dec selfdelim nonempty_enc construct_ok enc_params from_body dec_params schema_ok schemas c_ctl c_id.
